@@ -587,14 +587,33 @@ def _execute(sc):
                         f"conn {res['i']}: client sent FIN after its flight but the proxy did not close within 10 s "
                         f"(handler done={res['handler_done']})")
         if res["strict"]:
-            outcomes.append((res["i"], abstract))
+            # "The same hello" is decided by the independent record-layer reading of what was really sent, not by the
+            # scenario's intent: trailing bytes appended to one connection's flight may be handshake records that
+            # complete (and thereby change) a truncated hello, and the random parts of two real hellos differ, which
+            # matters once a length field has been damaged.
+            if state == "complete_wellformed":
+                refkey = ("wellformed", ref.sni_state, ref.sni, tuple(ref.alpn), tuple(ref.ciphers),
+                          tuple((t, len(b)) for t, b in ref.extensions))
+            elif state == "incomplete":
+                refkey = ("incomplete",)
+            elif fam != "real":
+                refkey = (state, CH.reassemble_tls(wire)[1])
+            else:
+                refkey = None
+            if refkey is not None:
+                outcomes.append((res["i"], abstract, refkey))
         log.append((res["i"], state, abstract, tuple(end), res["closed"], res["completed"]))
-    if len(outcomes) > 1:
+    groups: dict = {}
+    for o in outcomes:
+        groups.setdefault(o[2], []).append(o)
+    for grp in groups.values():
+        if len(grp) < 2:
+            continue
         probe("split_compared")
-        first = outcomes[0]
-        for o in outcomes[1:]:
+        first = grp[0]
+        for o in grp[1:]:
             if o[1] != first[1]:
-                violate("split_dependent_result", {"fired_somewhere": any(x[1] is not None for x in outcomes)},
+                violate("split_dependent_result", {"fired_somewhere": any(x[1] is not None for x in grp)},
                         f"same hello, different framing: conn {first[0]} -> {first[1] and first[1][:2]}, conn {o[0]} -> {o[1] and o[1][:2]}")
                 break
 
